@@ -295,23 +295,25 @@ theorem cond_signal_false_is_noop (m : M) (c : Nat) (h : (m.conds c).test = fals
     m.signal c = m := by
   simp [M.signal, h]
 
-/-- `signal()` with a true test (and `unhang()` always): every routine parked on the condition
-    is scheduled exactly once, at the signaller's logical time, nothing else is scheduled or
-    unscheduled, and the waiting list is emptied — so a second signal schedules nothing. -/
+/-- `signal()` with a true test (and `unhang()` always): afterwards every routine that was parked
+    on the condition has exactly ONE pending wake-up, at the signaller's logical time; nobody
+    else's wake-ups changed; the waiting list is empty — so a second signal schedules nothing. -/
 theorem cond_resumes_once_after_true_signal (m : M) (c : Nat) (h : (m.conds c).test = true) :
-    (m.signal c).queue.Perm
-        (((m.conds c).waiting.map fun r => (m.secsOf m.cur, r)) ++ m.queue) ∧
+    (∀ r ∈ (m.conds c).waiting, entriesOf r (m.signal c).queue = [(m.secsOf m.cur, r)]) ∧
+    (∀ r, r ∉ (m.conds c).waiting → (entriesOf r (m.signal c).queue).Perm (entriesOf r m.queue)) ∧
     ((m.signal c).conds c).waiting = [] ∧ ((m.signal c).conds c).test = true ∧
     (∀ i, i ≠ c → (m.signal c).conds i = m.conds i) ∧
     ((m.signal c).signal c).queue = (m.signal c).queue := by
-  have hq : (m.releaseCond c).queue.Perm
-      (((m.conds c).waiting.map fun r => (m.secsOf m.cur, r)) ++ m.queue) := by
-    have := schedAll_queue_perm (m.setCond c { m.conds c with waiting := [] }) (m.conds c).waiting
-    simpa [M.releaseCond, M.secsOf] using this
+  have hq := schedAll_entries (m.setCond c { m.conds c with waiting := [] }) (m.conds c).waiting
   have hsig : m.signal c = m.releaseCond c := by simp [M.signal, h]
   have hw : ((m.releaseCond c).conds c).waiting = [] := by simp [releaseCond_conds]
   have ht : ((m.releaseCond c).conds c).test = true := by simp [releaseCond_conds, h]
-  refine ⟨by rw [hsig]; exact hq, by rw [hsig]; exact hw, by rw [hsig]; exact ht, ?_, ?_⟩
+  have hsecs : (m.setCond c { m.conds c with waiting := [] }).secsOf
+      (m.setCond c { m.conds c with waiting := [] }).cur = m.secsOf m.cur := by
+    simp only [setCond_cur]; cases m.cur <;> rfl
+  rw [hsecs] at hq
+  refine ⟨by rw [hsig]; exact hq.1, by rw [hsig]; exact hq.2, by rw [hsig]; exact hw,
+    by rw [hsig]; exact ht, ?_, ?_⟩
   · intro i hi; rw [hsig]; simp [releaseCond_conds, hi]
   · rw [hsig]
     simp only [M.signal, ht, if_true]
@@ -357,7 +359,7 @@ theorem cond_wait_true_continues {m : M} {top : Nat} {rest : List Nat}
 theorem tick_reschedules_iff_number (m : M) (t : Int) (r : Nat) (res : Res) :
     (m.finishTick t r res).queue =
       match res with
-      | .val (.num d) => insertQ (t + d, r) m.queue
+      | .val (.num d) => enqueue (t + d, r) m.queue
       | _ => m.queue := by
   unfold M.finishTick
   split <;> simp
